@@ -19,6 +19,7 @@ C14, translator tie (B): `Gen/ConfigLoad.lean` is rewritten by `extract/configlo
 -/
 import Rivaas.Gen.ConfigLoad
 import Rivaas.Model.ConfigSM
+import Rivaas.Spec.Config
 
 namespace Rivaas.Tie.C14Load
 open Rivaas.Gen.ConfigLoad Rivaas.ConfigSkel Rivaas.ConfigSM
@@ -77,5 +78,20 @@ theorem values_read_under_lock :
     valuesUses.all (fun u => u.held != .none) = true ∧
     valuesUses.any (fun u => u.fn == "Values" && u.kind == .returnPtr && u.held == .read) = true ∧
     valuesUses.any (fun u => u.fn == "getValueFromMap" && u.kind == .derefRead && u.held == .read) = true := by decide
+
+/-- `getValueFromMap` is what `Config.getValue` models: under the read lock (unlock deferred), the key lower-cased, the
+    whole lower-cased key tried as a top-level key first (returning on a hit), then split at "." and traversed -/
+theorem get_steps_are_model :
+    getSteps = ["RLock", "defer RUnlock", "values == nil: return nil", "copy of the map header", "strings.ToLower",
+      "direct lookup of the lower-cased key: return on hit", "strings.Split of the lower-cased key at \".\"",
+      "traversal loop", "return nil"] := by decide
+
+/-- the model does what these steps say: the direct match wins over the dotted path, the key is lower-cased as a whole -/
+theorem model_get_follows_steps :
+    Rivaas.Config.classify (Rivaas.Config.getValue
+      [("a.b".toList, .leaf "s:direct".toList), ("a".toList, .map [("b".toList, .leaf "s:nested".toList)])] "A.B".toList) =
+      .leaf "s:direct".toList ∧
+    Rivaas.Config.classify (Rivaas.Config.getValue
+      [("a".toList, .map [("b".toList, .leaf "s:nested".toList)])] "A.b".toList) = .leaf "s:nested".toList := by decide
 
 end Rivaas.Tie.C14Load
